@@ -1,6 +1,9 @@
 (* Props/C18.v — The depth limit is exact (and parse cost stays bounded: see the known finding).
-   Statements only; proofs in Proofs/DepthProofs.v. *)
-From UV Require Import Parse DepthSpec DepthProofs.
+   Statements only; proofs in Proofs/DepthProofs.v, DepthDictProofs.v, DepthOptProofs.v.
+   `ex` is the list of names the class excludes from additional keys (reflected from the real class:
+   the theorems hold for any).  The depth suite of harness/c18.py checks on every run that the classes
+   declared with the real library reflect to exactly node_decl_ex / dnode_decl_ex / onode_decl_ex. *)
+From UV Require Import Parse DepthSpec DepthProofs DepthDictProofs DepthOptProofs.
 Open Scope string_scope.
 Open Scope list_scope.
 Open Scope Z_scope.
@@ -11,28 +14,51 @@ Open Scope Z_scope.
    exactly when its data-class nesting depth is at most d; otherwise a ParseError is raised.
    No bound on the tree; fuel only has to exceed twice the height (so OutOfFuel is excluded). *)
 Theorem C18_list_exact :
-  forall re d t fuel, 1 <= d -> (2 * height t <= fuel)%nat ->
+  forall re ex d t fuel, 1 <= d -> (2 * height t <= fuel)%nat ->
   (Z.of_nat (height t) <= d ->
-     call_dataclass re (node_world (Some d)) fuel 0 None (to_val t) = Ok (inst t)) /\
+     call_dataclass re (node_world_ex ex (Some d)) fuel 0 None (to_val t) = Ok (inst t)) /\
   (d < Z.of_nat (height t) ->
-     raises_parse (call_dataclass re (node_world (Some d)) fuel 0 None (to_val t))).
+     raises_parse (call_dataclass re (node_world_ex ex (Some d)) fuel 0 None (to_val t))).
 Proof. exact node_call. Qed.
+
+(* `class Node(Schema): __options__ = Options(max_depth=d); v: int; link: Dict[str, 'Node']`:
+   the same for every tree of mappings (any number of entries, any keys, distinct at each node as in
+   every Python dict): exactness does not depend on which entry holds the deep branch. *)
+Theorem C18_dict_exact :
+  forall re ex d t fuel, 1 <= d -> wf_dtree t -> (2 * dheight t <= fuel)%nat ->
+  (Z.of_nat (dheight t) <= d ->
+     call_dataclass re (dnode_world_ex ex (Some d)) fuel 0 None (to_val_d t) = Ok (inst_d t)) /\
+  (d < Z.of_nat (dheight t) ->
+     raises_parse (call_dataclass re (dnode_world_ex ex (Some d)) fuel 0 None (to_val_d t))).
+Proof. exact dnode_call. Qed.
+
+(* `class Node(Schema): __options__ = Options(max_depth=d); v: int; link: Optional['Node'] = None`:
+   the link goes through a union, which is tried in up to three stages (strict, no_data_loss, lenient);
+   a chain of any length is accepted exactly when its length is at most d — none of the stages lets a
+   too-deep chain in, and none rejects one inside the limit. *)
+Theorem C18_optional_exact :
+  forall re ex d c fuel, 1 <= d -> (3 * clength c <= fuel)%nat ->
+  (Z.of_nat (clength c) <= d ->
+     call_dataclass re (onode_world_ex ex (Some d)) fuel 0 None (to_val_c c) = Ok (inst_c c)) /\
+  (d < Z.of_nat (clength c) ->
+     raises_parse (call_dataclass re (onode_world_ex ex (Some d)) fuel 0 None (to_val_c c))).
+Proof. exact onode_call. Qed.
 
 (* the same at any nesting level k of an enclosing parse: levels add up *)
 Theorem C18_levels_add_up :
-  forall re d, 1 <= d -> forall t n k caller,
+  forall re ex d, 1 <= d -> forall t n k caller,
   (2 * height t <= n)%nat -> o_override caller = false ->
   (k + Z.of_nat (height t) <= d ->
-     init_dataclass (transform re (node_world (Some d)) n) 0 (node_decl (Some d)) caller k (to_val t) = Ok (inst t)) /\
+     init_dataclass (transform re (node_world_ex ex (Some d)) n) 0 (node_decl_ex ex (Some d)) caller k (to_val t) = Ok (inst t)) /\
   (d < k + Z.of_nat (height t) ->
-     raises_parse (init_dataclass (transform re (node_world (Some d)) n) 0 (node_decl (Some d)) caller k (to_val t))).
+     raises_parse (init_dataclass (transform re (node_world_ex ex (Some d)) n) 0 (node_decl_ex ex (Some d)) caller k (to_val t))).
 Proof. exact node_parse. Qed.
 
 (* cyclic inputs: every unfolding deeper than d is rejected *)
 Corollary C18_deep_unfoldings_rejected :
-  forall re d t fuel, 1 <= d -> (2 * height t <= fuel)%nat -> d < Z.of_nat (height t) ->
-  raises_parse (call_dataclass re (node_world (Some d)) fuel 0 None (to_val t)).
-Proof. intros re d t fuel Hd Hf Hgt. exact (proj2 (node_call re d t fuel Hd Hf) Hgt). Qed.
+  forall re ex d t fuel, 1 <= d -> (2 * height t <= fuel)%nat -> d < Z.of_nat (height t) ->
+  raises_parse (call_dataclass re (node_world_ex ex (Some d)) fuel 0 None (to_val t)).
+Proof. intros re ex d t fuel Hd Hf Hgt. exact (proj2 (node_call re ex d t fuel Hd Hf) Hgt). Qed.
 
 (* non-vacuity: a tree of height 3 whose deep branch sits at index 0, and one where it sits at index 1 *)
 Example C18_position_independent :
@@ -43,3 +69,17 @@ Example C18_position_independent :
   is_ok (call_dataclass (fun _ _ => false) (node_world (Some 2)) 10 0 None (to_val a)) = false /\
   is_ok (call_dataclass (fun _ _ => false) (node_world (Some 2)) 10 0 None (to_val b)) = false.
 Proof. vm_compute. repeat split. Qed.
+
+(* non-vacuity for the mapping and optional families: a well-formed tree of height 3 / a chain of length 3 *)
+Example C18_dict_nonvacuous :
+  let a := DNode 1 [("x", DNode 2 [("", DNode 3 [])]); ("y", DNode 4 [])] in
+  wf_dtree a /\
+  is_ok (call_dataclass (fun _ _ => false) (dnode_world (Some 3)) 10 0 None (to_val_d a)) = true /\
+  is_ok (call_dataclass (fun _ _ => false) (dnode_world (Some 2)) 10 0 None (to_val_d a)) = false.
+Proof. split; [|vm_compute; split; reflexivity].
+  cbn. repeat split; repeat constructor; cbn; intuition congruence. Qed.
+Example C18_optional_nonvacuous :
+  let c := CNext 1 (CNext 2 (CEnd 3)) in
+  is_ok (call_dataclass (fun _ _ => false) (onode_world (Some 3)) 10 0 None (to_val_c c)) = true /\
+  is_ok (call_dataclass (fun _ _ => false) (onode_world (Some 2)) 10 0 None (to_val_c c)) = false.
+Proof. vm_compute. split; reflexivity. Qed.
